@@ -275,6 +275,13 @@ impl Vm {
 
     let mut length: usize = 0;
     for arg in args {
+      // segments are literals or the result of a user definable str method
+      if !arg.is_obj_kind(ObjectKind::String) {
+        return self.runtime_error_from_str(
+          self.builtin.errors.type_,
+          "Expected str() to return a string during interpolation.",
+        );
+      }
       length += arg.to_obj().to_str().len();
     }
 
